@@ -370,7 +370,7 @@ func (w *World) absorb(before func(j int, b *Batch)) {
 func (w *World) probe(j int) {
 	w.nprobe++
 	img := w.disk.Clone()
-	ev := map[string]any{"event": "probe", "step": w.step, "batch": j, "cont": map[string]any{"n": 0}}
+	ev := map[string]any{"event": "probe", "step": w.step, "batch": w.nbatch, "cont": map[string]any{"n": 0}}
 	bc, errs := w.open(img.Store(), w.Spec.Kind != "trusted")
 	ev["ok"], ev["err"] = errs == "", errs
 	if errs != "" {
